@@ -93,7 +93,7 @@ def growth(ctx, case):
 def run_shard(ctx):
     max_lex = 400 if ctx.thorough else 60
 
-    @ctx.settings(ctx.n(16000, 320000))
+    @ctx.settings(ctx.n(16000, 128000))
     @given(_tree.soup_case(max_lex))
     def t(case):
         if _tree.exhausted():
@@ -118,7 +118,7 @@ def run_shard(ctx):
             target(work / (len(text) + 50.0))
 
     ctx.run_given(t)
-    ctx.fuzz_campaign("", (0, 640000))
+    ctx.fuzz_campaign("", (0, 240000))
 
     # growth law on short units
     @ctx.settings(ctx.n(480, 8000))
